@@ -18,6 +18,7 @@ import (
 	"hash/fnv"
 	"os"
 	"os/exec"
+	"runtime"
 	"sort"
 	"time"
 
@@ -57,6 +58,7 @@ func main() {
 type WorkerOut struct {
 	Prop       string            `json:"prop"`
 	Build      string            `json:"build"`
+	Procs      int               `json:"gomaxprocs"`
 	Runs       uint64            `json:"runs"`
 	Incon      uint64            `json:"inconclusive"`
 	InconWhy   []string          `json:"inconclusive_why,omitempty"`
@@ -244,7 +246,7 @@ func worker(args []string) {
 		os.Exit(2)
 	}
 	g := work.CaptureGlobals()
-	out := &WorkerOut{Prop: *prop, Build: *build, Stats: work.NewStats(), Policies: map[string]uint64{}, Globals: g.Names(), FirstIdx: *from, SegFrom: *from}
+	out := &WorkerOut{Prop: *prop, Build: *build, Procs: runtime.GOMAXPROCS(0), Stats: work.NewStats(), Policies: map[string]uint64{}, Globals: g.Names(), FirstIdx: *from, SegFrom: *from}
 	distinct := map[uint64]bool{}
 	detR := prng.New(prng.Mix(*seed, 0xde7) ^ *from)
 
@@ -253,6 +255,7 @@ func worker(args []string) {
 			break
 		}
 		run := generate(*prop, *seed, idx, *build, sites)
+		run.Procs = runtime.GOMAXPROCS(0)
 		res := work.Exec(run, ar, va, g, sites)
 		out.Runs++
 		out.LastIdx = idx
@@ -360,6 +363,7 @@ type Session struct {
 	Until  uint64 `json:"until"`
 	Build  string `json:"build"`
 	Tier   string `json:"tier,omitempty"`
+	Procs  int    `json:"gomaxprocs,omitempty"`
 }
 
 type ReplayFile struct {
@@ -400,6 +404,9 @@ func replay(args []string) {
 		fmt.Println(string(j))
 		fmt.Println("SIG " + v.Sig)
 		os.Exit(1)
+	}
+	if rf.Run.Procs > 0 {
+		runtime.GOMAXPROCS(rf.Run.Procs)
 	}
 	sites := loadSites(*sitesPath)
 	ar, err := arena.New(1024)
@@ -447,6 +454,9 @@ func runSession(bin, sites string, ss *Session) (*work.Violation, error) {
 		a = append(a, "-sites", sites)
 	}
 	cmd := exec.Command(bin, a...)
+	if ss.Procs > 0 {
+		cmd.Env = append(os.Environ(), fmt.Sprintf("GOMAXPROCS=%d", ss.Procs))
+	}
 	var stdout, stderr bytes.Buffer
 	cmd.Stdout, cmd.Stderr = &stdout, &stderr
 	if err := cmd.Run(); err != nil {
